@@ -230,14 +230,19 @@ func (rd *ReorgDetector) detectReorgInTrackedList(ctx context.Context) error {
 				rd.log.Warnf("Reorg detected %s for subscriber %s between blocks %d and %d. currentHash: %s trackHash: %s",
 					rd.network, event.SubscriberID, event.FromBlock, event.ToBlock, event.CurrentHash, event.TrackedHash)
 				// Notify the subscriber about the reorg
-				rd.notifySubscriber(id, hdr)
-				// Remove the reorged block and all the following blocks from DB
-				if err := rd.removeTrackedBlockRange(event.SubscriberID, event.FromBlock, event.ToBlock); err != nil {
-					return fmt.Errorf("error removing blocks from DB for subscriber %s between blocks %d and %d: %w",
-						event.SubscriberID, event.FromBlock, event.ToBlock, err)
+				if err := rd.notifySubscriber(id, hdr, hdrs, func() error {
+					// Remove the reorged block and all the following blocks from DB
+					if err := rd.removeTrackedBlockRange(event.SubscriberID, event.FromBlock, event.ToBlock); err != nil {
+						return fmt.Errorf("error removing blocks from DB for subscriber %s between blocks %d and %d: %w",
+							event.SubscriberID, event.FromBlock, event.ToBlock, err)
+					}
+					// Remove the reorged block and all the following blocks from memory
+					hdrs.removeRangeLocked(event.FromBlock, event.ToBlock)
+
+					return nil
+				}); err != nil {
+					return err
 				}
-				// Remove the reorged block and all the following blocks from memory
-				hdrs.removeRange(event.FromBlock, event.ToBlock)
 
 				break
 			}
